@@ -154,14 +154,26 @@ pub fn run_wrap(prog: &Program, upto: usize) -> (Run, Option<RunErr>) {
     (run, None)
 }
 
-/// number of distinct iterated derivatives of e, or None if more than cap (pulls the iterator lazily)
+/// wall-clock budget (ms) for one closure enumeration; exceeding it only ever SKIPS a case (counted), it is
+/// never a verdict. Needed because the cost per derivative of nested counting loops grows to ~10 ms.
+pub static CLOSURE_MS: std::sync::atomic::AtomicU64 = std::sync::atomic::AtomicU64::new(400);
+
+/// number of distinct iterated derivatives of e, or None if more than cap or over the time budget
+/// (pulls the iterator lazily)
 pub fn closure_size(m: &mut ReManager, e: RegLan, cap: usize) -> Option<usize> {
-    let n = m.iter_derivatives(e).take(cap + 1).count();
-    if n > cap {
-        None
-    } else {
-        Some(n)
+    let limit = CLOSURE_MS.load(std::sync::atomic::Ordering::Relaxed);
+    let t0 = std::time::Instant::now();
+    let mut n = 0usize;
+    for _ in m.iter_derivatives(e) {
+        n += 1;
+        if n > cap {
+            return None;
+        }
+        if n % 16 == 0 && t0.elapsed().as_millis() as u64 > limit {
+            return None;
+        }
     }
+    Some(n)
 }
 
 /// history noise: unrelated constructions and queries that change ids, operand order and cache contents
@@ -342,7 +354,16 @@ pub fn for_programs(
         rep.hist("profiles", prof.name());
         rep.inc("programs");
         rep.sample(|| format!("[{}] {}", prof.name(), prog.to_text().replace('\n', "; ")));
+        let t0 = std::time::Instant::now();
         let r = guard(|| f(&prog, seed, rep));
+        let el = t0.elapsed().as_millis() as u64;
+        rep.max("program_wall_ms", el);
+        if el > 2000 {
+            rep.inc("programs_slower_than_2s");
+            if std::env::var("SMTMON_SLOW").is_ok() {
+                eprintln!("SLOW {} ms:\n{}", el, prog.to_text());
+            }
+        }
         if let Err(msg) = r {
             if panic_in_harness(&msg) {
                 rep.harness_error(format!("monitor panicked: {}", msg));
